@@ -44,6 +44,9 @@ type History struct {
 	// resource limits of this history in the child (0 = the defaults, see limits)
 	CPUSeconds float64 `json:"cpu_s,omitempty"`
 	MemMiB     int     `json:"mem_mib,omitempty"`
+	// WallMs: set by the parent on the request only (never stored): the wall-clock bound after which the
+	// child reports by itself what it is stuck in (the parent's own timer is the backstop)
+	WallMs int64 `json:"wall_ms,omitempty"`
 }
 
 func newHistory(stream, what string, names []string, texts []string) History {
@@ -118,6 +121,10 @@ type Report struct {
 	Phase    string   `json:"phase"`    // what was running when it panicked
 	Notes    []string `json:"notes,omitempty"`
 	Resource string   `json:"resource,omitempty"` // a resource limit was exceeded (the child stops): a violation
+	Hang     bool     `json:"hang,omitempty"`     // the limit exceeded is the wall-clock bound
+	Calls    int64    `json:"calls,omitempty"`    // accessor calls made by the reflective read-back
+	Side     int      `json:"side,omitempty"`     // entries kept beside the children that were walked
+	Methods  []string `json:"methods,omitempty"`  // accessors met for the first time by this child: "type.method: called | why not"
 	PeakMiB  int      `json:"peak_mib,omitempty"` // highest runtime.MemStats.Sys seen while the history ran
 	CPUms    int64    `json:"cpu_ms,omitempty"`   // processor time the history took
 	RawErrs  []string `json:"raw_errs,omitempty"` // replay only: the messages as goyang words them
@@ -128,11 +135,12 @@ const maxWalkNodes = 400000
 
 // runHistory performs the history on the real goyang packages.
 func runHistory(h History) (rep Report) {
-	phase := "start"
+	setPhase("start")
 	defer func() {
 		if r := recover(); r != nil {
 			rep.Panic = fmt.Sprint(r) + "\n" + stackHead(debug.Stack())
-			rep.Phase = phase
+			rep.Phase = getPhase()
+			rep.Phase += whereNow()
 		}
 	}()
 	t0 := time.Now()
@@ -142,7 +150,7 @@ func runHistory(h History) (rep Report) {
 	// 1. the generic parser alone on every text, and a walk over what it returns
 	for i, t := range texts {
 		size += len(t)
-		phase = fmt.Sprintf("yang.Parse text %d", i)
+		setPhase(fmt.Sprintf("yang.Parse text %d", i))
 		ss, err := yang.Parse(t, h.Names[i])
 		rep.Parsed = append(rep.Parsed, err == nil)
 		if err != nil {
@@ -150,7 +158,7 @@ func runHistory(h History) (rep Report) {
 			_ = err.Error()
 			continue
 		}
-		phase = fmt.Sprintf("walk statements of text %d", i)
+		setPhase(fmt.Sprintf("walk statements of text %d", i))
 		for _, s := range ss {
 			rep.Stmts += walkStmt(s)
 		}
@@ -161,7 +169,7 @@ func runHistory(h History) (rep Report) {
 	ms.ParseOptions.DeviateOptions.IgnoreDeviateNotSupported = h.IgnoreNotSupported
 	var accNames, accTexts []string
 	for i, t := range texts {
-		phase = fmt.Sprintf("Modules.Parse text %d", i)
+		setPhase(fmt.Sprintf("Modules.Parse text %d", i))
 		err := ms.Parse(t, h.Names[i])
 		rep.Accepted = append(rep.Accepted, err == nil)
 		if err == nil {
@@ -172,10 +180,10 @@ func runHistory(h History) (rep Report) {
 		}
 	}
 	// 3. Process
-	phase = "Modules.Process"
+	setPhase("Modules.Process")
 	errs := ms.Process()
 	rep.NErrs = len(errs)
-	phase = "error messages"
+	setPhase("error messages")
 	rep.Errs = lib.CanonErrs(unquoted(errs))
 	if os.Getenv("VERIF_C01_RAW") == "1" {
 		for i, e := range errs {
@@ -190,7 +198,9 @@ func runHistory(h History) (rep Report) {
 	}
 	// 4. read access to whatever came back, errors or not
 	seenMod := map[*yang.Module]bool{}
-	w := &walker{seen: map[*yang.Entry]bool{}}
+	rb := newReadback()
+	w := &walker{seen: map[*yang.Entry]bool{}, rb: rb}
+	var mods []*yang.Module
 	for _, mm := range []map[string]*yang.Module{ms.Modules, ms.SubModules} {
 		for _, k := range lib.SortedKeys(mm) {
 			m := mm[k]
@@ -198,7 +208,8 @@ func runHistory(h History) (rep Report) {
 				continue
 			}
 			seenMod[m] = true
-			phase = "identities of " + k
+			mods = append(mods, m)
+			setPhase("identities of " + k)
 			for _, id := range m.Identities() {
 				_ = id.PrefixedName()
 				for _, v := range id.Values {
@@ -208,26 +219,54 @@ func runHistory(h History) (rep Report) {
 					}
 				}
 			}
-			phase = "ToEntry " + k
+			setPhase("ToEntry " + k)
 			e := yang.ToEntry(m)
 			rep.Trees++
-			phase = "walk tree of " + k
-			w.phase = &phase
+			setPhase("read-back: walk of the tree of " + k)
 			w.maxDepth = 0
 			w.walk(e, 0)
-			phase = "Print " + k
+			setPhase("Print " + k)
 			if e != nil && w.n < maxWalkNodes {
 				printable(e, w.maxDepth).Print(io.Discard)
 			}
 		}
 	}
-	rep.Nodes = w.n
+	// 4b. the AST behind the trees: every Node implementer, every Value and Statement; ToEntry of every
+	// grouping node; then the entries kept beside the children (Augments, Augmented, Deviations and
+	// their Deviate entries, Uses[i].Grouping, the grouping entries), with everything below them
+	for _, m := range mods {
+		setPhase("read-back: AST nodes of " + m.Name)
+		rb.node(m, 0)
+	}
+	for i := 0; i < len(rb.groups); i++ {
+		g := rb.groups[i]
+		setPhase("ToEntry of grouping " + g.Name)
+		if ge := yang.ToEntry(g); ge != nil {
+			rb.side = append(rb.side, ge)
+		}
+	}
+	setPhase("read-back: entries kept beside the children (Augments, Augmented, Deviations, Deviate, Uses, groupings)")
+	main := w.n
+	w.sideMode = true
+	for len(rb.side) > 0 {
+		e := rb.side[len(rb.side)-1]
+		rb.side = rb.side[:len(rb.side)-1]
+		w.walk(e, 0)
+	}
+	rep.Side = w.n - main
+	setPhase("read-back: resolved types on the AST")
+	for i := 0; i < len(rb.ytypes); i++ {
+		rb.ytype(rb.ytypes[i], nil, 0)
+	}
+	rep.Nodes = main
+	rep.Calls = rb.calls
+	rep.Methods = rb.fresh
 	if w.cyclic != "" {
 		rep.Notes = append(rep.Notes, w.cyclic)
 	}
 	// 5. the same texts for the Lean resolver model
 	if allParse && size <= maxWireBytes && len(accNames) > 0 {
-		phase = "wire format"
+		setPhase("wire format")
 		if wire, err := lib.WireFiles(accNames, accTexts); err == nil {
 			rep.Wire = wire
 		}
@@ -264,10 +303,16 @@ type walker struct {
 	seen     map[*yang.Entry]bool
 	n        int
 	cyclic   string
-	phase    *string
 	maxDepth int
 	seenT    map[*yang.YangType]bool
+	rb       *readback
+	sideMode bool // walking entries kept beside the children: meeting a known entry again is expected
 }
+
+// fullNodes: the reflective read-back with the whole Find pool runs on the first so many entries
+// of a history (and on those the heavy rule picks); past that every accessor is still called on
+// every entry, Find with a short pool and nothing that writes.
+const fullNodes = 20000
 
 // heavyAt decides where the calls whose own cost grows with the square of the depth (Path and
 // Find with the node's own path build a string per ancestor) are made: on every node down to depth
@@ -283,7 +328,7 @@ func (w *walker) walk(e *yang.Entry, depth int) {
 		return
 	}
 	if w.seen[e] {
-		if w.cyclic == "" {
+		if w.cyclic == "" && !w.sideMode {
 			w.cyclic = "entry reachable twice: " + e.Name
 		}
 		return
@@ -296,6 +341,7 @@ func (w *walker) walk(e *yang.Entry, depth int) {
 	if depth > w.maxDepth {
 		w.maxDepth = depth
 	}
+	curEntry.Store(e)
 	_ = e.GetErrors()
 	_ = e.ReadOnly()
 	_ = e.Namespace()
@@ -303,6 +349,8 @@ func (w *walker) walk(e *yang.Entry, depth int) {
 	_ = e.DefaultValues()
 	_, _ = e.SingleDefaultValue()
 	w.readType(e.Type, 0)
+	// every exported accessor, by reflection (readback.go)
+	w.rb.entry(e, depth, w.n <= fullNodes && heavyAt(e, depth))
 	// Find: own path, a bogus path, relative paths
 	if heavyAt(e, depth) {
 		p := e.Path()
@@ -467,6 +515,8 @@ func startWatchdog(h *History, wr *bufio.Writer) *watchdog {
 	w := &watchdog{stop: make(chan struct{}), done: make(chan struct{})}
 	cpuLimit, memLimit := h.limits()
 	cpu0 := cpuTime()
+	t0 := time.Now()
+	wallLimit := time.Duration(h.WallMs) * time.Millisecond
 	go func() {
 		defer close(w.done)
 		tick := time.NewTicker(25 * time.Millisecond)
@@ -485,14 +535,20 @@ func startWatchdog(h *History, wr *bufio.Writer) *watchdog {
 			}
 			used := cpuTime() - cpu0
 			why := ""
+			hang := false
 			switch {
 			case held > memLimit:
 				why = fmt.Sprintf("memory: %d MiB held, limit %d MiB (input %d bytes)", held>>20, memLimit>>20, h.Bytes())
 			case used > cpuLimit:
 				why = fmt.Sprintf("processor time: %.1f s used, limit %.1f s (input %d bytes)", used.Seconds(), cpuLimit.Seconds(), h.Bytes())
+			case wallLimit > 0 && time.Since(t0) > wallLimit:
+				why = fmt.Sprintf("wall clock: no return within %v (%.1f s of processor time used; input %d bytes)", wallLimit, used.Seconds(), h.Bytes())
+				hang = true
 			}
 			if why != "" {
-				rep := Report{Resource: why, PeakMiB: int(w.peak >> 20), CPUms: used.Milliseconds()}
+				// what the history is stuck in: the phase, the accessor call under way, the stack of its goroutine
+				why += "; stuck in: " + getPhase() + whereNow() + "\n" + historyStack()
+				rep := Report{Resource: why, Hang: hang, Phase: getPhase() + whereNow(), PeakMiB: int(w.peak >> 20), CPUms: used.Milliseconds()}
 				b, _ := json.Marshal(rep)
 				wr.WriteString(base64.StdEncoding.EncodeToString(b))
 				wr.WriteByte('\n')
@@ -502,6 +558,30 @@ func startWatchdog(h *History, wr *bufio.Writer) *watchdog {
 		}
 	}()
 	return w
+}
+
+// whereNow words the accessor call (or the entry) the read-back is at.
+func whereNow() string {
+	if c := describeCall(); c != "" {
+		return ": read-back call " + c
+	}
+	if e := curEntry.Load(); e != nil {
+		return ": at entry " + safePath(e)
+	}
+	return ""
+}
+
+// historyStack returns the head of the stack of the goroutine that runs the history (taken from
+// another goroutine: the runtime stops the world for it, also inside a loop without calls).
+func historyStack() string {
+	buf := make([]byte, 1<<20)
+	buf = buf[:runtime.Stack(buf, true)]
+	for _, g := range strings.Split(string(buf), "\n\n") {
+		if strings.Contains(g, "main.runHistory") {
+			return stackHead([]byte(g))
+		}
+	}
+	return ""
 }
 
 func (w *watchdog) end() uint64 {
